@@ -22,7 +22,7 @@ INFO = {
     'engine': 'crosshair-tool 0.0.110 + z3; symx for the pipeline condition',
     'explanation': 'see level text',
     'bounds': {'quick': {**{c: 'see precondition in harness/ch_c11.py' for c in CONDS}, 'pipeline': '3 rows x 4 columns, 2 symbolic multi-value cells from a pool of 4, all 120 flag combinations (one or two exploded multi-value columns (incl. mappings mixing -> and <->)'},
-               'thorough': {**{c: 'same conditions, longer budget' for c in CONDS}, 'pipeline': 'same'}},
+               'thorough': {**{c: 'same conditions with one more symbolic character per string, longer budget' for c in CONDS}, 'pipeline': 'same'}},
     'outside': ['distributions of the random control features', 'larger frames'],
     'assumptions': ['pandas replaced by sympd and set by a list-backed set inside CrossHair', 'mixed_rank_graph replaced by a recorder in the pipeline condition'],
     'job_timeout': {'quick': 600, 'thorough': 2400},
